@@ -16,30 +16,35 @@ class C09:
     @staticmethod
     def check(case, mask, cache):
         sut = procs.run_child(engine.child_all, (case["ops"],), shims=mask)
-        div = engine.first_divergence(case["ops"], sut, case["refs"])
+        div = engine.first_divergence(case["ops"], sut, case["refs"], raw_text=True)
         checked = len(case["ops"])
+        hits = {}
+        for r, ref in zip(sut["results"], case["refs"]):
+            if isinstance(r, dict) and isinstance(ref, dict) and "raw" in r and "raw" in ref:
+                k = "to_b64:raw-text-equals-pristine" if r["raw"] == ref["raw"] else "to_b64:raw-text-differs-from-pristine(not gated)"
+                hits[k] = hits.get(k, 0) + 1
         if div is None and case["meta"].get("alt_sut"):
             # the same history in a second interpreter (other PYTHONHASHSEED) against the same references
             alt = procs.alt_zygote(4242).call("child_all", [case["ops"], {}], shims=mask)
-            div = engine.first_divergence(case["ops"], alt, case["refs"])
+            div = engine.first_divergence(case["ops"], alt, case["refs"], raw_text=True)
             if div is not None:
                 div["interpreter"] = "PYTHONHASHSEED=4242"
             checked *= 2
-        return {"divergence": div, "sut": sut, "checked": checked}
+        return {"divergence": div, "sut": sut, "checked": checked, "hits": hits}
 
     @staticmethod
     def check_raw(case, cache):
         ops = case["ops"]
         refs = [None if op["op"] == "audit" else engine.reference(ops, k, (), cache) for k, op in enumerate(ops)]
         sut = procs.run_child(engine.child_all, (ops,), shims=())
-        return engine.first_divergence(ops, sut, refs)
+        return engine.first_divergence(ops, sut, refs, raw_text=True)
 
     @staticmethod
     def recheck(ops, mask, cache):
-        div, _, refs = engine.evaluate(ops, mask, cache)
+        div, _, refs = engine.evaluate(ops, mask, cache, raw_text=True)
         if div is None:
             alt = procs.alt_zygote(4242).call("child_all", [ops, {}], shims=mask)
-            div = engine.first_divergence(ops, alt, refs)
+            div = engine.first_divergence(ops, alt, refs, raw_text=True)
             if div is not None:
                 div["interpreter"] = "PYTHONHASHSEED=4242"
         return div
